@@ -30,7 +30,7 @@ EXPLANATION = (
     "kept; Obj.expand_antisym_eri = ((pr|qs) - (ps|qr))**n with the spin-allowed parts; Obj.expand_intermediates: n separate "
     "expansions for an integer exponent n > 1, definition**n otherwise, on the indices of the object. R13e: split_orb_energy "
     "(classification of every object, num*remainder/denom = term, targets), contains_only_orb_energies tables, "
-    "cancel_denom_brackets / cancel_eri_objects (one power per listing, instance untouched), EriOrbenergy.__init__ (pref*num*eri/denom "
+    "(objects of the remainder keep negative exponents), cancel_denom_brackets / cancel_eri_objects (one power per listing, instance untouched), EriOrbenergy.__init__ (pref*num*eri/denom "
     "= term, smallest coefficient extracted), factor_and_remove_number, EriOrbenergy.expr. R13f: Obj.block_diagonalize_fock table "
     "(only f_ov/f_vo vanish; general index keeps the element), Obj.diagonalize_fock table (survivor of delta_pq, exponent kept, "
     "removed index substituted, off-diagonal 0, both targets: kept, default targets), Term.diagonalize_fock (product, substitutions "
@@ -51,9 +51,6 @@ ASSUMPTIONS = [
     "operation produces a new container; aliasing through containers the model does not see is not decided",
     "cancel_orb_energy_frac, permute_num and find_compatible_denom are algorithms: only the value of their result (and the listed "
     "argument forwarding) is decided, not how far they cancel / which permutations they find",
-    "Term.split_orb_energy is decided for terms whose non-orbital-energy objects have positive exponents (a tensor in the "
-    "denominator, e.g. V/X, is moved to the numerator of the remainder by `Pow(base, abs(exponent))`: outside the documented input "
-    "domain, reported as suspicious)",
     "the branch of cancel that adds a non-zero number left in the numerator is unreachable for valid numerators (no constant "
     "terms) and therefore not exercised",
 ]
@@ -149,6 +146,9 @@ def r13e(ctx):
         "single energy": t_mul(3, E("i")),
         "number": 5,
         "no fraction": t_mul(2, ERI, TAMP),
+        "tensor in the denominator": t_mul(ERI, T("pow", TAMP, -1), E("i"), T("pow", B(**B3), -1)),
+        "squared tensor in the denominator": t_mul(Fraction(1, 2), T("pow", ERI, -2), TAMP, T("pow", B(**B1), -2)),
+        "only a tensor in the denominator": T("pow", TAMP, -1),
     }
     for name, val in cases.items():
         w = World(IDX)
@@ -177,7 +177,7 @@ def r13e(ctx):
             for k in want:
                 vcheck(ctx, rule, fn, res[k], norm(t_mul(*want[k])) if want[k] else 1,
                        f"{k}: numbers and orbital energies with positive exponent -> num, orbital energies with negative "
-                       "exponent -> denom (as base**|n|), everything else -> remainder",
+                       "exponent -> denom (as base**|n|), everything else -> remainder with its own (signed) exponent",
                        f"split_orb_energy[{name}]: part `{k}`", key=f"split {name} {k}")
             vcheck(ctx, rule, fn, norm(t_mul(raw(res["num"]), raw(res["remainder"]), T("pow", raw(res["denom"]), -1))), val,
                    "num * remainder / denom is the term", f"split_orb_energy[{name}]: recombined parts", key=f"split {name} value")
